@@ -1,34 +1,33 @@
-(* C08 — nested differentiation is isolated.
-   FULL STATEMENT (not yet proved in Coq; tied by the three-way correspondence
-   run of ./check C08 on every run):
-     nested_correct : for every closed program e of the object language (any
-     nesting depth of Grad/Deriv, any mode assignment, any closure pattern),
-       run_tagged e = Some r  ->  r = run_spec e
-     where run_tagged is the model of tracer.py/core.py with dynamic trace ids
-     (Tagged.v) and run_spec evaluates in the tower of dual numbers (Tower.v).
-   PROVED HERE (partial): the two mechanisms the isolation rests on —
-   (a) the primitive wrapper differentiates with respect to exactly the
-   outermost trace present among its arguments and (b) whatever the tags,
-   kinds and nesting of the arguments, the value it returns is the raw function
-   of the underlying numbers; plus (c) the depth counter never decreases and is
-   restored by every normally returning call.
-   PROVED HERE (full statement on the forward-mode fragment):
-   C08_forward_nesting_correct - for every program without Grad (arbitrarily
-   nested Deriv, closures over any enclosing variable, Let, IfPos on traced
-   values, sign, Fail/Try), from every counter value >= -1 and under every
-   non-negative interference: the tagged evaluator returns v exactly when the
-   tower semantics returns strip v, and raises exactly when it raises.  The
-   proof (FwdCorrect.v, FwdStep.v, FwdEval.v) is the abstraction argument: a
-   boxed value is interpreted, relative to the list of active trace ids, as an
-   element of the tower; the primitive wrapper (find_top, unboxing, JVP rules run
-   through the wrapper, tangent accumulation) is shown to compute the tower
-   operation at every level by induction on the list of levels, and eval by
-   induction on fuel.
-   Missing: the same for reverse nodes (simulation of the backward pass at each
-   level); for programs with Grad the equality is tied by correspondence. *)
+(* C08 - nested differentiation is isolated.
+   FULL STATEMENT, PROVED: C08_nested_correct - for every closed program e of the
+   object language over the differentiable primitives and sign (any nesting depth
+   of Grad/Deriv, any mode assignment, any closure pattern, Let, IfPos on traced
+   values, Fail/Try), started from any trace counter >= -1, with an empty node
+   store, under any non-negative interference of other threads:
+       the tagged evaluator returns v   ->  eval_spec e = Some (strip v)
+       the tagged evaluator raises      ->  eval_spec e = None
+   where the tagged evaluator is the model of tracer.py / core.py with dynamic
+   trace ids, boxes, find_top_boxed_args, the primitive wrapper, JVPNode and
+   VJPNode, one global node store, toposort and backward_pass with the rule
+   bodies run through the wrapper (Tagged.v), and eval_spec evaluates in the
+   tower of dual numbers with no tags at all (Tower.v).
+   Proof (MixInterp.v, MixStep.v, MixBackward.v, MixEval.v): a boxed value is
+   interpreted, relative to the list of active levels (each forward or reverse)
+   and the node store, as an element of the tower - a forward box by its
+   tangent, a reverse box by the derivative of its node with respect to the
+   root of its trace read off the store.  The primitive wrapper computes the tower
+   operation at every level (MAP_all, by induction on the levels; a reverse level
+   records a node whose tangent is the sum of partials times parents' tangents).
+   The backward pass returns the tangent of the end node (loop_good: the sum of
+   pending cotangents weighted by node tangents is invariant under every step of
+   the loop over the topologically sorted nodes, using toposort_correct for
+   "consumers first" and "the root is last").  eval by induction on fuel.
+   What stays outside: primitives without a rule (PNoVjp/PNoJvp, covered by the
+   C15 theorems), out-of-fuel runs (the statement is about runs that return), and
+   the tie of Tagged.v to tracer.py/core.py, which is the correspondence run. *)
 From Coq Require Import List ZArith.
 Import ListNotations.
-From AG Require Import Toposort Tagged Tower Run08 TaggedProof TowerAlg FwdCorrect FwdStep FwdEval.
+From AG Require Import Toposort Tagged Tower Run08 TaggedProof TowerAlg FwdCorrect FwdStep FwdEval TowerRing MixInterp MixStep MixBackward MixEval.
 
 Theorem C08_outermost_level_selected_partial :
   forall (K : Type) (args : list (value K)) t k,
@@ -48,6 +47,29 @@ Theorem C08_primal_unaffected_by_tags_partial :
     raw K kadd ksub kmul kopp kF ksign p (map (strip K) args) = Val (strip K v).
 Proof. exact apply_prim_transparent. Qed.
 Print Assumptions C08_primal_unaffected_by_tags_partial.
+
+Theorem C08_nested_correct :
+  forall fuel e (s : state Z),
+    prims_ok e = true -> (-1 <= top Z s)%Z -> calm Z s -> store Z s = [] ->
+    match fst (zeval_sup Mono fuel [] e s) with
+    | Val v => eval_spec e 0 [] = Some (strip Z v)
+    | Err _ => eval_spec e 0 [] = None
+    | OutOfFuel => True
+    end.
+Proof. exact nested_correct. Qed.
+Print Assumptions C08_nested_correct.
+
+(* premises are met by the initial state, the evaluator modelled is /repo's, and the
+   four mode assignments of the classical confusion program are inside the fragment *)
+Example C08_nested_premises :
+  let inner := App2 PMul (App2 PMul (Var 1) (Var 0)) (Var 0) in
+  forallb prims_ok
+      [Grad (App2 PMul (Var 0) (Grad inner (Const 3))) (Const 2);
+       Deriv (App2 PMul (Var 0) (Grad inner (Const 3))) (Const 2);
+       Grad (App2 PMul (Var 0) (Deriv inner (Const 3))) (Const 2);
+       Deriv (App2 PMul (Var 0) (Deriv inner (Const 3))) (Const 2)] = true
+  /\ SUPPLY = Mono /\ store Z (init_state Z) = [] /\ (-1 <= top Z (init_state Z))%Z.
+Proof. repeat split; try reflexivity; discriminate. Qed.
 
 Theorem C08_forward_nesting_correct :
   forall fuel e (s : state Z),
